@@ -1,5 +1,7 @@
 // Package c10 checks property C10: tag filtering through the index equals evaluating the
-// predicate on every series, in every index state (memory, prepared, flushed, compacted, mixed).
+// predicate on every series, in every index state (memory, prepared, flushed, compacted, mixed),
+// including lookups and writes that run inside a flush / compaction and flushes that run inside a
+// lookup, at harness-owned points (nested_test.go).
 package c10
 
 import (
@@ -109,8 +111,13 @@ func genMetricPlans(t *rapid.T) []*metricPlan {
 }
 
 func genSeries(t *rapid.T, plans []*metricPlan, shards []models.ShardID, n int) []*seriesT {
+	return genSeriesFrom(t, plans, shards, 0, n)
+}
+
+// genSeriesFrom numbers the uids from..from+n-1.
+func genSeriesFrom(t *rapid.T, plans []*metricPlan, shards []models.ShardID, from, n int) []*seriesT {
 	var out []*seriesT
-	for i := 0; i < n; i++ {
+	for i := from; i < from+n; i++ {
 		mp := plans[rapid.IntRange(0, len(plans)-1).Draw(t, "metricOf")]
 		s := &seriesT{Metric: mp.Name, UID: fmt.Sprintf("u%04d", i), Tags: map[string]string{}}
 		s.Shard = shards[rapid.IntRange(0, len(shards)-1).Draw(t, "shardOf")]
@@ -322,12 +329,17 @@ type condCase struct {
 	ntSeen bool
 }
 
-func genCondCase(t *rapid.T, plans []*metricPlan) *condCase {
+func genCondCase(t *rapid.T, plans []*metricPlan) *condCase { return genCondCaseDepth(t, plans, -1) }
+
+// genCondCaseDepth: depth < 0 = drawn.
+func genCondCaseDepth(t *rapid.T, plans []*metricPlan, depth int) *condCase {
 	cc := &condCase{classes: map[string]bool{}, first: map[int]string{}}
 	cc.Metric = plans[rapid.IntRange(0, len(plans)-1).Draw(t, "condMetric")]
 	cc.Flat = rapid.IntRange(0, 5).Draw(t, "flat") == 0
 	cc.CondFst = rapid.IntRange(0, 3).Draw(t, "condFirst") == 0
-	depth := rapid.SampledFrom([]int{1, 1, 2, 2, 2, 3, 3, 4}).Draw(t, "depth")
+	if depth < 0 {
+		depth = rapid.SampledFrom([]int{1, 1, 2, 2, 2, 3, 3, 4}).Draw(t, "depth")
+	}
 	cc.Gen = genCond(t, cc.Metric, depth, cc.Flat, cc.classes)
 	cc.Text = cc.Gen.sqlText()
 	q, err := parseQuery(selectSQL(cc.Metric.Name, cc.Gen, []string{"uid"}, cc.CondFst))
@@ -375,6 +387,7 @@ const (
 	stCompact
 	stReopen
 	stRewrite
+	stLookupFlush // a lookup with a complete flush / compaction nested inside (see nested_test.go)
 )
 
 type step struct {
@@ -386,6 +399,10 @@ type step struct {
 	PickMask uint32
 	DelObs   bool
 	Rewrite  []int
+	Nested   []*nestedPlan // operations nested inside the flush / compaction (see nested_test.go)
+	Cond     int           // stLookupFlush: which condition (< 0: Probe)
+	Probe    *condCase
+	GB       int
 }
 
 func genShardSubset(t *rapid.T, shards []models.ShardID) []models.ShardID {
@@ -401,7 +418,16 @@ func genShardSubset(t *rapid.T, shards []models.ShardID) []models.ShardID {
 	return out
 }
 
-func genHistory(t *rapid.T, nBatches int, nSeries int, shards []models.ShardID) []step {
+// nest (may be nil) draws the operations nested inside a flush (false) or a compaction (true).
+// lookup (may be nil) draws a lookup step with a flush nested inside.
+func genHistory(t *rapid.T, nBatches int, nSeries int, shards []models.ShardID, nest func(compaction bool) []*nestedPlan, lookup func() step) []step {
+	// about every third flush / compaction step has operations of other clients nested inside
+	nested := func(s step) step {
+		if nest != nil && (s.Kind == stCompact || s.Kind == stFlush && s.Flush != flushDataOnly) && rapid.IntRange(0, 2).Draw(t, "nestHere") == 0 {
+			s.Nested = nest(s.Kind == stCompact)
+		}
+		return s
+	}
 	steps := []step{{Kind: stWrite, Batch: 0}}
 	if rapid.IntRange(0, 14).Draw(t, "flushBeforeWrite") == 14 {
 		// a flush of a still empty database (periodic flush job on an idle database)
@@ -418,13 +444,13 @@ func genHistory(t *rapid.T, nBatches int, nSeries int, shards []models.ShardID) 
 		k := rapid.IntRange(2, nBatches).Draw(t, "scriptBatches")
 		steps = append(steps, step{Kind: stFlush, Flush: flushAll, Shards: shards})
 		for ; next < k; next++ {
-			steps = append(steps, step{Kind: stWrite, Batch: next}, step{Kind: stFlush, Flush: flushAll, Shards: shards})
+			steps = append(steps, step{Kind: stWrite, Batch: next}, nested(step{Kind: stFlush, Flush: flushAll, Shards: shards}))
 		}
-		steps = append(steps, step{Kind: stCompact, PickMask: 0xffffffff, DelObs: rapid.Bool().Draw(t, "delObsolete")})
+		steps = append(steps, nested(step{Kind: stCompact, PickMask: 0xffffffff, DelObs: rapid.Bool().Draw(t, "delObsolete")}))
 		dirty, filesSince = false, 0
 		switch {
 		case next < nBatches && rapid.Bool().Draw(t, "scriptWriteAfter"):
-			steps = append(steps, step{Kind: stWrite, Batch: next}, step{Kind: stFlush, Flush: flushAll, Shards: shards})
+			steps = append(steps, step{Kind: stWrite, Batch: next}, nested(step{Kind: stFlush, Flush: flushAll, Shards: shards}))
 			next++
 			filesSince = 1
 		default:
@@ -434,7 +460,13 @@ func genHistory(t *rapid.T, nBatches int, nSeries int, shards []models.ShardID) 
 	}
 	// weights of the next step depend on what would make a new index state
 	for len(steps) < 16 && (next < nBatches || extra > 0) {
-		wWrite, wPrep, wFlush, wCompact, wReopen, wRewrite := 0, 1, 1, 1, 1, 1
+		wWrite, wPrep, wFlush, wCompact, wReopen, wRewrite, wLookup := 0, 1, 1, 1, 1, 1, 0
+		if lookup != nil {
+			wLookup = 1
+			if dirty {
+				wLookup = 3 // the nested flush has something to move
+			}
+		}
 		if next < nBatches {
 			wWrite = 3
 			if !dirty {
@@ -450,9 +482,20 @@ func genHistory(t *rapid.T, nBatches int, nSeries int, shards []models.ShardID) 
 		if compacted {
 			wReopen = 6 // the dictionary store reads the compacted file only after a restart or its next flush
 		}
-		total := wWrite + wPrep + wFlush + wCompact + wReopen + wRewrite
+		total := wWrite + wPrep + wFlush + wCompact + wReopen + wRewrite + wLookup
 		k := rapid.IntRange(0, total-1).Draw(t, "stepKind")
 		switch {
+		case k >= total-wLookup:
+			s := lookup()
+			steps = append(steps, s)
+			for _, p := range s.Nested {
+				if op := p.Ops[0]; op.Kind == nFlush && op.Flush == flushMetaIndex && len(op.Shards) == len(shards) {
+					if dirty {
+						filesSince++
+					}
+					dirty = false
+				}
+			}
 		case k < wWrite:
 			steps = append(steps, step{Kind: stWrite, Batch: next})
 			next++
@@ -466,7 +509,7 @@ func genHistory(t *rapid.T, nBatches int, nSeries int, shards []models.ShardID) 
 			if fk != flushAll {
 				sub = genShardSubset(t, shards)
 			}
-			steps = append(steps, step{Kind: stFlush, Flush: fk, Shards: sub})
+			steps = append(steps, nested(step{Kind: stFlush, Flush: fk, Shards: sub}))
 			if (fk == flushAll || fk == flushMetaIndex) && len(sub) == len(shards) {
 				if dirty {
 					filesSince++
@@ -478,7 +521,7 @@ func genHistory(t *rapid.T, nBatches int, nSeries int, shards []models.ShardID) 
 			if rapid.IntRange(0, 3).Draw(t, "compactSome") == 3 {
 				mask = rapid.Uint32().Draw(t, "compactMask")
 			}
-			steps = append(steps, step{Kind: stCompact, PickMask: mask, DelObs: rapid.Bool().Draw(t, "delObsolete")})
+			steps = append(steps, nested(step{Kind: stCompact, PickMask: mask, DelObs: rapid.Bool().Draw(t, "delObsolete")}))
 			if filesSince >= 2 {
 				compacted = true
 			}
@@ -580,6 +623,7 @@ func (w *world) checkCond(cc *condCase, st stateInfo, gbVariant int, stats *case
 	// (a) group by uid: the selected set
 	text := selectSQL(mname, cc.Gen, []string{"uid"}, cc.CondFst)
 	rows, err := w.query(text)
+	note := w.queryNote()
 	stats.queries++
 	if err != nil {
 		t.Fatalf("query failed: %v\n%s\n%s", err, text, ctx())
@@ -630,8 +674,8 @@ func (w *world) checkCond(cc *condCase, st stateInfo, gbVariant int, stats *case
 				fmt.Fprintf(&detail, "   %s was never written\n", u)
 			}
 		}
-		t.Fatalf("selected series differ from brute-force evaluation (uid=points)\n missing %v\n extra   %v\n%s got  %s\n want %s\n%s",
-			missing, extra, detail.String(), gs, ws, ctx())
+		t.Fatalf("selected series differ from brute-force evaluation (uid=points)\n missing %v\n extra   %v\n%s got  %s\n want %s\n%s%s",
+			missing, extra, detail.String(), gs, ws, ctx(), note)
 	}
 	// metamorphic: same data + condition => same answer in every index state
 	if prev, ok := cc.first[w.version]; ok {
@@ -823,11 +867,40 @@ func runCase(t *rapid.T, group string, shards []models.ShardID, leaves int) {
 	for i := 0; i < nConds; i++ {
 		conds = append(conds, genCondCase(t, plans))
 	}
-	steps := genHistory(t, nBatches, n, shards)
+	// series that only operations nested inside a flush / compaction write
+	spare := genSeriesFrom(t, plans, shards, 9000, 6)
+	var lookupGen func() step
+	// one shard only: with several shards the pipelines of the other shards would keep running while the lookup
+	// is parked, i.e. truly concurrently with the nested flush, which this harness does not control
+	if !ev.Known(sigSnapshotBeforeMemory) && len(shards) == 1 {
+		lookupGen = func() step {
+			s := step{Kind: stLookupFlush, Cond: rapid.IntRange(-2, nConds-1).Draw(t, "lookupCond"), GB: rapid.IntRange(0, 11).Draw(t, "lookupGB")}
+			if s.Cond < 0 {
+				s.Probe = genCondCaseDepth(t, plans, rapid.IntRange(0, 1).Draw(t, "probeDepth"))
+			}
+			s.Nested = genLookupPlans(t, shards)
+			return s
+		}
+	}
+	steps := genHistory(t, nBatches, n, shards, func(compaction bool) []*nestedPlan {
+		return genNestedPlans(t, compaction, plans, nConds, n)
+	}, lookupGen)
 
 	w := newWorld(t, shards, leaves)
 	defer w.close()
 	stats := &caseStats{classes: map[string]bool{}}
+	nextSpare, sweepDue := 0, false
+	// runNested runs body with the plans of the step armed
+	runNested := func(s step, body func()) {
+		if len(s.Nested) == 0 {
+			body()
+			return
+		}
+		w.logf("next step with nested operations %v", s.Nested)
+		w.withSeams(s.Nested, w.nestedRunner(all, spare, conds, w.state(), stats, &nextSpare), body)
+		recordNested(s.Nested, map[bool]string{false: "flush", true: "compaction"}[s.Kind == stCompact], stats)
+		sweepDue = true
+	}
 	for si, s := range steps {
 		switch s.Kind {
 		case stWrite:
@@ -853,17 +926,33 @@ func runCase(t *rapid.T, group string, shards []models.ShardID, leaves int) {
 		case stPrepare:
 			w.prepare(s.Meta, s.Shards)
 		case stFlush:
-			w.flush(s.Flush, s.Shards)
+			runNested(s, func() { w.flush(s.Flush, s.Shards) })
 			if s.Flush != flushAll {
 				stats.classes["partial_flush"] = true
 			}
 		case stCompact:
 			mask := s.PickMask
-			w.compact(func(i int) bool { return mask&(1<<(uint(i)%32)) != 0 }, s.DelObs)
+			runNested(s, func() { w.compact(func(i int) bool { return mask&(1<<(uint(i)%32)) != 0 }, s.DelObs) })
 		case stReopen:
 			w.reopen()
+		case stLookupFlush:
+			cc := s.Probe
+			if cc == nil {
+				cc = conds[s.Cond]
+			}
+			st := w.state()
+			w.logf("lookup with nested steps %v: %s: %s", s.Nested, cc.Metric.Name, cc.Text)
+			w.bodyNotJudged = false
+			w.withSeams(s.Nested, w.nestedRunner(all, spare, conds, st, stats, &nextSpare), func() { w.softCheck(cc, st, s.GB, stats) })
+			recordNested(s.Nested, "lookup", stats)
+			if w.bodyNotJudged {
+				stats.classes["nested_overlapped_answers_not_judged"] = true
+			}
 		}
 		w.checkpoint(conds, si, stats)
+		if sweepDue && (len(s.Nested) > 0 || si == len(steps)-1) {
+			w.sweep(plans, stats)
+		}
 	}
 	for _, cc := range conds {
 		for c := range cc.classes {
